@@ -109,8 +109,10 @@ func randomTrace(rng *rand.Rand, rep *kit.Report, rec *kit.Recorder, steps int, 
 	}
 	pick := func(xs []ch.NodeID) ch.NodeID { return xs[rng.Intn(len(xs))] }
 
+	lastLeader := ch.NodeID(0) // leader of the newest authority issued
 	doInstall := func(n ch.NodeID, id replication.AuthorityID, fenced bool) {
 		rep.Cover("Install")
+		lastLeader = n
 		_, err := c.install(n, mkAuthority(id, n, fenced), callTimeout)
 		if err == nil {
 			installed[n] = id
@@ -140,12 +142,25 @@ func randomTrace(rng *rand.Rand, rep *kit.Report, rec *kit.Recorder, steps int, 
 		case r < 14 || len(installed) == 0: // install a new authority somewhere
 			n := pick(upNodes())
 			doInstall(n, newAuth(), rng.Intn(12) == 0)
-		case r < 17 && len(history) > 0: // an OLD authority again, or the same id with another leader
+		case r < 17 && len(history) > 0: // an OLD authority of the SAME node again
+			// The control plane never hands one authority id to two leaders, so an earlier authority
+			// is only ever re-offered to the node that held it (refused as stale, or a same-authority
+			// no-op / re-install after a restart).
 			h := history[rng.Intn(len(history))]
+			cur, has := installed[h.node]
+			// only two environment-legal shapes: (a) the node currently holds a NEWER authority (the
+			// old one must be refused as stale), (b) it is the newest authority ever issued and this
+			// node is its leader (same-authority re-install, e.g. after a restart)
+			stale := has && authInt(h.auth) < authInt(cur)
+			newest := h.auth == (replication.AuthorityID{ChannelEpoch: epoch, LeaderTerm: term, FenceVersion: fv}) && h.node == lastLeader
+			if h.node == down || !(stale || newest) {
+				continue
+			}
 			rep.Cover("InstallStale")
-			n := pick(upNodes())
-			_, _ = c.install(n, mkAuthority(h.auth, n, false), callTimeout)
-			// the driver's belief is unchanged: either it was refused, or it was a same-authority no-op
+			_, err := c.install(h.node, mkAuthority(h.auth, h.node, false), callTimeout)
+			if err == nil {
+				installed[h.node] = h.auth
+			}
 		case r < 62: // a new command on a node that believes it is the leader
 			var cands []ch.NodeID
 			for n := range installed {
@@ -209,6 +224,7 @@ func randomTrace(rng *rand.Rand, rep *kit.Report, rec *kit.Recorder, steps int, 
 			}
 			nn := pick(others)
 			id := newAuth()
+			lastLeader = nn
 			cmdSeq++
 			cmd := mkCommand(cmdSeq, 1, installed[old].ChannelEpoch, 0)
 			oldAuth := installed[old]
@@ -702,6 +718,7 @@ func scenarioRetryStability(s *scenarioCtx) error {
 		return err
 	}
 	cmds := []command{mkCommand(1, 3, 1, 0), mkCommand(2, 1, 1, 0), mkCommand(3, 2, 1, 0), mkCommand(4, 1, 1, 0)}
+	seqs := []int{1, 2, 3, 4}
 	var first []replication.Receipt
 	next := uint64(1)
 	for i, cmd := range cmds {
@@ -733,7 +750,7 @@ func scenarioRetryStability(s *scenarioCtx) error {
 					map[string]any{"scenario": "retry-stability", "schedule": s.log})
 				return false
 			}
-			changed := mkCommand(i+1, len(cmd.records), 1, 9)
+			changed := mkCommand(seqs[i], len(cmd.records), 1, 9)
 			if rc2, err2 := s.c.commit(1, aid(1), changed, true, callTimeout); err2 == nil {
 				s.rep.Violate("C03", "scenario", fmt.Sprintf("%s: command id %d re-used with different content was acknowledged: %+v", phase, i+1, rc2),
 					map[string]any{"scenario": "retry-stability", "schedule": s.log})
@@ -752,6 +769,34 @@ func scenarioRetryStability(s *scenarioCtx) error {
 	}
 	if !check("retained ring / evicted") {
 		return nil
+	}
+	// a retry while the first attempt's outcome is unknown (pending proposal retained): every follower
+	// reply is lost, so the round cannot finish; the identical retry must then return the range the
+	// pending proposal was sealed on, and a changed-content retry must be rejected
+	s.c.setDrop(1, 2, true)
+	s.c.setDrop(1, 3, true)
+	pend := mkCommand(9, 2, 1, 0)
+	_, perr := s.c.commit(1, aid(1), pend, false, 3*time.Second)
+	s.note("Commit(cmd 9) with every follower reply lost -> %v", perr)
+	s.c.healAll()
+	if perr != nil {
+		if rcC, errC := s.c.commit(1, aid(1), mkCommand(9, 2, 1, 9), true, callTimeout); errC == nil {
+			s.rep.Violate("C03", "scenario", fmt.Sprintf("changed content under the command id of a still-pending proposal was acknowledged: %+v", rcC),
+				map[string]any{"scenario": "retry-stability", "schedule": s.log})
+			return nil
+		}
+		rcP, errP := s.c.commit(1, aid(1), pend, false, callTimeout)
+		s.note("identical retry of the pending command -> %+v, %v", rcP, errP)
+		if errP == nil {
+			if rcP.First != next || rcP.Last != next+1 {
+				s.rep.Violate("C03", "scenario", fmt.Sprintf("retry of the pending command returned %+v, expected [%d,%d]", rcP, next, next+1),
+					map[string]any{"scenario": "retry-stability", "schedule": s.log})
+				return nil
+			}
+			cmds = append(cmds, pend)
+			seqs = append(seqs, 9)
+			first = append(first, rcP)
+		}
 	}
 	s.c.crash(1)
 	if err := s.c.restart(1); err != nil {
